@@ -108,6 +108,12 @@ Section ABF.
     | r :: others => Some (root_collect r (firstn k (map wL others)))
     end.
 
+  (* a walker that starts from data read through inputPrefix (read_gradients_samples): every replica reads the same
+     grid I; it is recorded as exchanged already (snapshot := I), so nobody sends it.  Before the repair of round 5 this
+     was only done with "shared on" in the configuration: with sharing enabled later by a script the snapshot was empty *)
+  Definition w_init_input (I : grid) (t : Z) : walker := mkW I I grid0 t.
+  Definition w_init_input_old (I : grid) (t : Z) : walker := mkW I grid0 grid0 t.
+
   (* restart through a state file: samples/gradients, local_* and (since the repair) last_* are
      written and read back; shared_last_step := step of the restart *)
   Definition w_restart (t : Z) (w : walker) : walker := mkW (wG w) (wL w) (wLoc w) t.
